@@ -100,6 +100,15 @@ class GridX:
 SLACK = F(1, 2 ** 50)
 
 
+def slack_for(Gf, a):
+    """|p - a| is computed exactly in binary64 when p/2 <= a <= 2p (Sterbenz), which holds for both neighbours of
+    every level a >= p[1]; only below p[1] can rounding of the distance decide a near-tie, so only there a
+    near-tie (2^-58) is accepted either way.  On an EXACT tie (68 of the 199 grid midpoints are exact ties in
+    binary64) both neighbours are "the nearest grid level" in the sense of the property, so either is accepted
+    (numpy argmin and the model take the first); everything else is strict."""
+    return F(1, 2 ** 58) if a < Gf[1] else F(0)
+
+
 # ---- the real code -----------------------------------------------------------------
 def ivl_out(r):
     lo, hi = np.asarray(r.lo, dtype=float), np.asarray(r.hi, dtype=float)
@@ -136,18 +145,43 @@ def levels(Params, n):
     return [float(x) for x in np.linspace(Params.p_lboundary, Params.p_hboundary, n)]
 
 
+_QL = {}
+
+
+def _cached_ql(xs):
+    k = id(xs)
+    if k not in _QL or _QL[k][0] is not xs:
+        _QL[k] = (xs, ql(xs))
+    return _QL[k][1]
+
+
+def model_batch_par(prop, reqs, workers=4):
+    """core.model_batch over `workers` driver processes (the driver is a pure function of each request line)"""
+    import concurrent.futures as cf
+    if len(reqs) < 64:
+        return core.model_batch(prop, reqs)
+    chunks = [reqs[i::workers] for i in range(workers)]
+    with cf.ThreadPoolExecutor(workers) as ex:
+        outs = list(ex.map(lambda c: core.model_batch(prop, c), chunks))
+    res = [None] * len(reqs)
+    for w, out in enumerate(outs):
+        res[w::workers] = out
+    return res
+
+
 def wire(op, left, right, arg, Params):
-    L, R = ql(left), ql(right)
+    L, R = _cached_ql(left), _cached_ql(right)
     if op in ("cut", "cdf"):
         return f"{op} {L} {R} {q(arg)}"
     if op in ("cuts", "cdfs"):
         return f"{op} {L} {R} {ql(arg)}"
     if op == "disc":
-        lv = [] if arg is None else levels(Params, arg)
+        lv = [] if (arg is None or 2 <= arg <= N) else levels(Params, arg)
         return f"disc {L} {R} {'none' if arg is None else arg} {ql(lv)}"
     if op in ("outer", "cond"):
-        lv = [float(x) for x in Params.p_values] if arg is None else levels(Params, arg)
-        return f"{op} {L} {R} {ql(lv)}"
+        # for 2 <= n <= steps the driver uses its regenerated table (the one the theorems are about) and ignores `lv`
+        lv = [] if arg is None else (levels(Params, arg) if not 2 <= arg <= N else [])
+        return f"{op} {L} {R} {'none' if arg is None else arg} {ql(lv)}"
     if op == "pi":
         return f"pi {L} {R} {q(arg[0])} {'n' if arg[1] == 'narrowest' else 'w'}"
 
@@ -178,12 +212,15 @@ def gen_queries(rng, Gf, left, right, tier_scale):
     """queries for one p-box"""
     Q = []
     mids = [(Gf[i] + Gf[i + 1]) / 2 for i in range(N - 1)]
+    xmids = [m for i, m in enumerate(mids) if F(m) - F(Gf[i]) == F(Gf[i + 1]) - F(m)]     # exact ties in binary64
     # alpha levels
     lv = [0.0, 1.0, 0.001, 0.999, 0.5, rng.choice(Gf), rng.choice(Gf), rng.choice(mids), rng.choice(mids), mids[0], mids[-1],
           rng.random(), rng.random(), rng.uniform(0, 0.001), rng.uniform(0.999, 1)]
-    for a in rng.sample(lv, 5):
+    for a in rng.sample(lv, 4):
         Q.append(("cut", a))
-    Q.append(("cuts", [rng.choice(lv + Gf[:3] + mids[:3]) for _ in range(rng.randint(1, 12))]))
+    if xmids:
+        Q.append(("cut", rng.choice(xmids)))
+    Q.append(("cuts", [rng.choice(lv + Gf[:3] + mids[:3] + xmids) for _ in range(rng.randint(1, 12))]))
     # x values
     vals = sorted(set(left + right))
     xs = [left[0], right[-1], left[0] - 1.0, right[-1] + 1.0, left[0] - 1e-9, rng.choice(left), rng.choice(right), rng.choice(left), rng.choice(right)]
@@ -197,7 +234,7 @@ def gen_queries(rng, Gf, left, right, tier_scale):
     Q.append(("cdfs", [float(rng.choice(xs)) for _ in range(rng.randint(1, 10))]))
     # discretisations
     Q.append(("disc", rng.choice([None, N])))
-    Q.append(("disc", rng.choice([2, 3, 5, 10, 50, 100, 199, rng.randint(2, 200)])))
+    Q.append(("disc", rng.choice([2, 3, 5, 10, 50, 100, 199, 201, 333, rng.randint(2, 200)])))
     for m in {rng.choice([None, 2, 3, 4, 5, 200]), rng.randint(2, 200)}:
         Q.append(("outer", m))
     for m in {rng.choice([2, 3, 4, 5, 10, 200]), rng.randint(2, 200)}:
@@ -233,13 +270,15 @@ def run(ctx: core.Check):
                        "grid distances differ by less than 2^-50 is accepted either way",
                        "levels np.linspace(0.001, 0.999, n) are supplied to the model by the harness (numpy table)"]
     gen_out = core.LEAN / "Pun/Gen/GridGen.lean"
-    ctx.lean_stage(["Pun.Props.C18"], generators=[("params.py grid", lambda: trgrid.generate(core.REPO, gen_out))])
+    ctx.lean_stage(["Pun.Props.C18"], generators=[
+        ("params.py grid", lambda: trgrid.generate(core.REPO, gen_out)),
+        ("np.linspace level tables m=2..steps", lambda: trgrid.generate_levels(core.REPO, core.LEAN / "Pun/Gen/LevelsGen.lean"))])
     Staircase, Params = _api()
     Gf = [float(x) for x in Params.p_values]
     GX = GridX(Gf)
     rng = ctx.rng
     boxes = []
-    nb = ctx.scale(56, 1000)
+    nb = ctx.scale(98, 1000)
     for b in range(nb):
         kind = KINDS[b % len(KINDS)]
         left, right = gen_box(rng, kind)
@@ -251,16 +290,24 @@ def run(ctx: core.Check):
     # always present: the witnesses of the recorded findings
     cases.append((0, "cond", 2))
     reqs = [wire(op, boxes[bi][1], boxes[bi][2], arg, Params) for bi, op, arg in cases]
-    replies = core.model_batch("C18", reqs)
+    replies = model_batch_par("C18", reqs)
     objs = {}
     pis = {}
     for (bi, op, arg), rep in zip(cases, replies):
         kind, left, right = boxes[bi]
         if bi not in objs:
-            P = Staircase(left=np.array(left), right=np.array(right))
-            assert [float(x) for x in P.left] == left and [float(x) for x in P.right] == right
-            objs[bi] = P
+            try:
+                P = Staircase(left=np.array(left), right=np.array(right))
+                if [float(x) for x in P.left] != left or [float(x) for x in P.right] != right:
+                    raise ValueError("constructor changed the bounds")
+                objs[bi] = P
+            except BaseException as e:  # noqa
+                objs[bi] = None
+                ctx.fail(feats("Staircase", kind, "constructor:" + err_kind(e)), {"box": kind, "left": left, "right": right},
+                         f"Staircase(left, right) of a well-formed {kind} p-box raises / alters the bounds: {type(e).__name__}: {str(e)[:80]}")
         P = objs[bi]
+        if P is None:
+            continue
         ctx.count((bi, op, repr(arg)), kind != "constant", op)
         ctx.bump("box:" + kind)
         impl = run_impl(P, op, arg)
@@ -289,7 +336,7 @@ def run(ctx: core.Check):
                 ctx.fail(feats(op, kind, "shape"), cj, "alpha_cut returns the wrong shape")
                 continue
             for a, l, h in zip(lv, lo, hi):
-                ks = GX.nearest_set(a, SLACK)
+                ks = GX.nearest_set(a, slack_for(Gf, a))
                 if not any(l == left[k] and h == right[k] for k in ks):
                     ctx.fail(feats(op, kind, "not-nearest-level"), dict(cj, level=a, got=[l, h], want=[left[ks[0]], right[ks[0]]]),
                              f"alpha_cut({a}) = [{l},{h}] but the bounds at the nearest grid level p[{ks[0]}] are [{left[ks[0]]},{right[ks[0]]}]")
@@ -318,7 +365,7 @@ def run(ctx: core.Check):
                     ctx.fail(feats(op, kind, "native-differs"), cj, "discretise() with the native step count does not return the steps")
             else:
                 lv = levels(Params, arg)
-                bad = len(lo) != arg or any(not any(l == left[k] and h == right[k] for k in GX.nearest_set(a, SLACK)) for a, l, h in zip(lv, lo, hi))
+                bad = len(lo) != arg or any(not any(l == left[k] and h == right[k] for k in GX.nearest_set(a, slack_for(Gf, a))) for a, l, h in zip(lv, lo, hi))
                 if bad:
                     ctx.fail(feats(op, kind, "not-alpha-cuts", n=arg), cj, f"discretise({arg}) is not the list of alpha-cuts at linspace levels")
         elif op == "outer":
@@ -354,6 +401,18 @@ def run(ctx: core.Check):
             pis.setdefault(bi, {})[(arg[0], arg[1])] = (lo[0], hi[0])
             if not lo[0] <= hi[0]:
                 ctx.fail(feats(op, kind, "inverted"), cj, "get_PI returns an inverted interval")
+            # coverage semantics: the two cut levels are (1-alpha)/2 and 1-(1-alpha)/2
+            lc = (1 - arg[0]) / 2
+            hc = 1 - lc
+            K1, K2 = GX.nearest_set(lc, slack_for(Gf, lc)), GX.nearest_set(hc, slack_for(Gf, hc))
+            cands = []
+            for k1 in K1:
+                for k2 in K2:
+                    nn, ww = (right[k1], left[k2]), (left[k1], right[k2])
+                    cands.append(ww if (arg[1] == "widest" or nn[0] > nn[1]) else nn)
+            if (lo[0], hi[0]) not in cands:
+                ctx.fail(feats(op, kind, "pi-value", style=arg[1]), dict(cj, got=[lo[0], hi[0]], want=list(cands[0])),
+                         f"get_PI({arg[0]}, {arg[1]}) = [{lo[0]},{hi[0]}], the bounds at the cut levels {lc}, {hc} give {list(cands[0])}")
         if len(ctx.samples) < 6 and op in ("cut", "cdf", "pi", "outer") and bi < 3 and len(str(arg)) < 40:
             ctx.sample({"box": kind, "op": op, "arg": arg, "impl": _short(impl), "model": rep[:70]})
     # ---------------- prediction intervals: relations between the answers for one box
@@ -371,17 +430,42 @@ def run(ctx: core.Check):
                 if not (x and y):
                     continue
                 if st == "narrowest":
-                    # the documented fall-back returns the 'widest' interval when the narrowest does not exist;
-                    # monotonicity of the narrowest style is a statement about levels where it exists
-                    if x == d.get((a1, "widest")) and x != narrow_direct(GX, left, right, a1):
-                        ctx.bump("pi-fallback-skipped")
+                    # Props.C18: monotone where the narrowest interval exists at the smaller coverage
+                    # (pi_narrow_monotone_where_exists: then it exists at the larger one too) and where it exists at
+                    # neither (pi_narrow_monotone_both_fallback); the documented fall-back breaks it in between
+                    # (pi_fallback_breaks_monotone), so only that region is skipped
+                    n1, n2 = narrow_direct(GX, left, right, a1), narrow_direct(GX, left, right, a2)
+                    ex1, ex2 = n1[0] <= n1[1], n2[0] <= n2[1]
+                    if ex1 and not ex2:
+                        ctx.fail(feats("pi", kind, "existence-not-monotone"), {"box": kind, "alpha": [a1, a2], "left": left, "right": right},
+                                 f"narrowest PI exists at coverage {a1} but not at {a2}")
                         continue
-                    if y == d.get((a2, "widest")) and y != narrow_direct(GX, left, right, a2):
-                        ctx.bump("pi-fallback-skipped")
+                    if not ex1 and ex2:
+                        ctx.bump("pi-fallback-region-skipped")
                         continue
+                    ctx.bump("pi-narrowest-region-" + ("exists" if ex1 else "both-fallback"))
+                    want = n1 if ex1 else None
+                    if ex1 and x != n1:
+                        ctx.fail(feats("pi", kind, "narrowest-value"), {"box": kind, "alpha": a1, "got": x, "want": n1, "left": left, "right": right},
+                                 f"get_PI({a1}) narrowest = {x}, bounds give [{n1[0]},{n1[1]}]")
                 if not (y[0] <= x[0] and x[1] <= y[1]):
                     ctx.fail(feats("pi", kind, "not-monotone", style=st), {"box": kind, "alpha": [a1, a2], "style": st, "pi": [x, y], "left": left, "right": right},
                              f"get_PI {st}: coverage {a1} gives {x}, larger coverage {a2} gives {y} which does not contain it")
+    # ---------------- the decided counterexample of Props.C18.pi_fallback_breaks_monotone, replayed on the real code
+    cl, cr = [float(i) for i in range(N)], [float(i + 100) for i in range(N)]
+    try:
+        Pc = Staircase(left=np.array(cl), right=np.array(cr))
+        r1, r2 = run_impl(Pc, "pi", (1 / 8, "narrowest")), run_impl(Pc, "pi", (63 / 64, "narrowest"))
+    except BaseException as e:  # noqa
+        r1 = r2 = ("err", err_kind(e))
+    m1, m2 = [parse_model(x) for x in core.model_batch("C18", [wire("pi", cl, cr, (1 / 8, "narrowest"), Params), wire("pi", cl, cr, (63 / 64, "narrowest"), Params)])]
+    ctx.count(("cex", "pi"), True, "pi-counterexample")
+    want1, want2 = ("ok", [F(87)], [F(212)]), ("ok", [F(101)], [F(198)])
+    if same(r1, m1) and same(r2, m2) and m1[:3] == want1 and m2[:3] == want2:
+        ctx.tie_ok()
+        ctx.bump("pi-fallback-counterexample-reproduced-on-real-code")
+    else:
+        ctx.tie_bad("pi-counterexample", {"box": "left[i]=i, right[i]=i+100", "alphas": [0.125, 0.984375]}, [_short(r1), _short(r2)], [_short(m1), _short(m2)])
 
 
 def narrow_direct(GX, left, right, alpha):
@@ -391,6 +475,8 @@ def narrow_direct(GX, left, right, alpha):
 
 
 def near_tie_ok(GX, left, right, op, arg, impl, Params):
+    Gf = GX.f
+    SL = lambda a: slack_for(Gf, a)
     """a disagreement is excused when every returned interval is the pair of bounds at SOME grid level whose
     exact distance to the requested level is within 2^-50 of the minimum"""
     lo, hi = impl[1], impl[2]
@@ -406,8 +492,8 @@ def near_tie_ok(GX, left, right, op, arg, impl, Params):
         lv = [float(x) for x in Params.p_values] if arg is None else levels(Params, arg)
         if len(lo) != len(lv) - 1:
             return False
-        return all(any(l == left[k] for k in GX.nearest_set(a, SLACK)) for a, l in zip(lv[:-1], lo)) and \
-            all(any(h == right[k] for k in GX.nearest_set(a, SLACK)) for a, h in zip(lv[1:], hi))
+        return all(any(l == left[k] for k in GX.nearest_set(a, SL(a))) for a, l in zip(lv[:-1], lo)) and \
+            all(any(h == right[k] for k in GX.nearest_set(a, SL(a))) for a, h in zip(lv[1:], hi))
     elif op == "pi":
         a = arg[0]
         lc = (1 - a) / 2
@@ -422,7 +508,7 @@ def near_tie_ok(GX, left, right, op, arg, impl, Params):
         return (lo[0], hi[0]) in cands
     if len(lo) != len(lv):
         return False
-    return all(any(l == left[k] and h == right[k] for k in GX.nearest_set(a, SLACK)) for a, l, h in zip(lv, lo, hi))
+    return all(any(l == left[k] and h == right[k] for k in GX.nearest_set(a, SL(a))) for a, l, h in zip(lv, lo, hi))
 
 
 def _short(t):
